@@ -50,8 +50,9 @@ def stdIdeal (j : Fin (n + 1)) : Fin (n + 2) → K := fun i =>
   else 0
 
 /-- `Hyperplane._compute_ideal_basis`: the rows of the hyperplane data are the normal and the
-images `b_j · T` of the standard ideal basis under `T = spacelike_to(normal)` (contract:
-`T` preserves the form and its row 1 is the normalised normal) -/
+images `b_j · T` of the standard ideal basis under `T = spacelike_to(normal)` (repaired code: the
+frame `(t, v̂)` completed by `find_isometry`, model `GT.GS.spacelikeTo`; used here through its
+contract: `T` preserves the form and its row 1 is the normalised normal) -/
 def hyperplaneData (T : Matrix (Fin (n + 2)) (Fin (n + 2)) K) (normal : Fin (n + 2) → K) :
     Fin (n + 2) → Fin (n + 2) → K :=
   Fin.cons normal fun j => stdIdeal j ᵥ* T
@@ -71,6 +72,13 @@ def expectedEvals : ℕ → List K
 def isReflSpectrum (ε : K) (evals : List K) : Bool :=
   ((evals.mergeSort (fun a b => decide (a ≤ b))).zip (expectedEvals evals.length)).all
     fun p => decide (|p.1 - p.2| ≤ ε)
+
+/-- the whole acceptance decision of `from_reflection`: the spectrum test, then the spacelike test
+that `spacelike_to` applies to the chosen `(-1)`-eigenvector (after `normalize`, so its Minkowski
+norm is `±1` or `0`): `normsq > ERROR_THRESHOLD`.  `vnorm` is the Minkowski norm of that
+normalised eigenvector. -/
+def fromReflectionAccepts (ε : K) (evals : List K) (vnorm : K) : Bool :=
+  isReflSpectrum ε evals && decide (ε < vnorm)
 
 /-- scan for `np.argmin` (first minimum): position `i` in the scan, best value and index so far -/
 def argminGo : List K → ℕ → K → ℕ → ℕ
